@@ -106,6 +106,12 @@ def gen_target(rnd, t):
                        "localhost/a.txt", "@localhost/../secret5.txt", "/a.txt?..", "/sub/..%2f..%2fsecret5.txt"])
 
 
+EXTRA_HEADERS = ["Host: localhost", "Host: 127.0.0.1:7878", "User-Agent: Mozilla/5.0 (X11; Linux x86_64)", "Accept: */*", "Accept-Encoding: gzip, deflate, br",
+                 "Accept-Language: de-DE,de;q=0.9", "Connection: keep-alive", "Cookie: a=b; c=d", "X-Forwarded-For: 10.0.0.1", "If-None-Match: \"abc\"",
+                 "If-Modified-Since: Sat, 29 Oct 1994 19:43:31 GMT", "Cache-Control: no-cache", "Referer: https://foo.example/page?x=1", "X-Empty:", "X-A: é",
+                 "Upgrade-Insecure-Requests: 1", "If-Range: \"abc\"", "TE: trailers", "X-Range: bytes=0-0", "X-Origin: https://evil.example"]
+
+
 def gen_cors(rnd):
     if rnd.random() < 0.5:
         return "all", None
@@ -155,6 +161,10 @@ def serve_case(rnd, kind="serve", tree=None, target=None, method=None, headers=N
         if rnd.random() < 0.3: hs.append("Range: " + rnd.choice(RANGES))
         if rnd.random() < 0.35: hs.append("Origin: " + gen_origin(rnd, origins))
         if meth == "OPTIONS" and rnd.random() < 0.7: hs += ["Access-Control-Request-Method: PUT", "Access-Control-Request-Headers: X-A, Content-Type"]
+    if raw_req is None and rnd.random() < 0.35 and len(body) < 3000:
+        # headers every client sends and the server has no use for, before, between and after the ones the case is about
+        for _ in range(rnd.randint(1, 3)):
+            hs.insert(rnd.randrange(len(hs) + 1), rnd.choice(EXTRA_HEADERS))
     req = (meth + " " + tg + " HTTP/1.1\r\n" + "".join(h + "\r\n" for h in hs) + "\r\n").encode("utf-8", "surrogateescape") + body
     if raw_req is not None:
         req = raw_req(req) if callable(raw_req) else raw_req
